@@ -1438,7 +1438,8 @@ class ClientRequest(ClientRequestBase):
         if self.compress:
             writer.enable_compression(self.compress)
 
-        if self.chunked is not None:
+        # chunked=False means "do not chunk": only a true value switches the framing
+        if self.chunked:
             writer.enable_chunking()
         return writer
 
